@@ -102,7 +102,7 @@ struct Bucket {
     odd: Vec<String>,
 }
 
-fn production_run(sim: &Sim, rt: &tokio::runtime::Runtime, p: usize, c: usize) -> (Caught<Result<(Option<usize>, usize), String>>, Vec<usize>, Vec<String>, usize) {
+fn install_bucket(sim: &Sim, p: usize, c: usize) -> Arc<Mutex<Bucket>> {
     let state = Arc::new(Mutex::new(Bucket { p, c, requested: vec![], requested_raw: vec![], odd: vec![] }));
     let st2 = state.clone();
     sim.set_handler(Box::new(move |req| {
@@ -156,6 +156,11 @@ fn production_run(sim: &Sim, rt: &tokio::runtime::Runtime, p: usize, c: usize) -
             }
         }
     }));
+    state
+}
+
+fn production_run(sim: &Sim, rt: &tokio::runtime::Runtime, p: usize, c: usize) -> (Caught<Result<(Option<usize>, usize), String>>, Vec<usize>, Vec<String>, usize) {
+    let state = install_bucket(sim, p, c);
     let r = guarded(|| rt.block_on(get_latest_volume(SITE)).map(|r| (r.volume.map(|v| v.as_number()), r.calls)).map_err(|e| format!("{:?}", e)));
     sim.clear_handler();
     let b = state.lock().unwrap_or_else(|e| e.into_inner());
@@ -207,6 +212,45 @@ fn check_production(ctx: &Ctx, sim: &Sim, rt: &tokio::runtime::Runtime, p: usize
         st.count("executions_with_non_listing_requests", 1);
     }
     conforms
+}
+
+/// Two lookups polled concurrently by one task on one runtime (`tokio::join!`), optionally next to an
+/// unrelated listing call: each must find the newest directory, and the two reported call counts
+/// must add up to the listing requests the simulator saw for them.
+fn check_production_concurrent(ctx: &Ctx, sim: &Sim, rt: &tokio::runtime::Runtime, p: usize, c: usize, with_other_call: bool, st: &mut Stats) {
+    use nexrad_data::aws::realtime::{list_chunks_in_volume, VolumeIndex};
+    let state = install_bucket(sim, p, c);
+    st.evaluations += 1;
+    let wit = || json!({"op": "production_concurrent", "newest_directory": p + 1, "populated": c, "with_other_call": with_other_call});
+    let r = guarded(|| {
+        rt.block_on(async {
+            if with_other_call {
+                let (a, _l, b) = tokio::join!(get_latest_volume(SITE), list_chunks_in_volume(SITE, VolumeIndex::new(p + 1), 100), get_latest_volume(SITE));
+                (a.map(|r| (r.volume.map(|v| v.as_number()), r.calls)).map_err(|e| format!("{e:?}")), b.map(|r| (r.volume.map(|v| v.as_number()), r.calls)).map_err(|e| format!("{e:?}")))
+            } else {
+                let (a, b) = tokio::join!(get_latest_volume(SITE), get_latest_volume(SITE));
+                (a.map(|r| (r.volume.map(|v| v.as_number()), r.calls)).map_err(|e| format!("{e:?}")), b.map(|r| (r.volume.map(|v| v.as_number()), r.calls)).map_err(|e| format!("{e:?}")))
+            }
+        })
+    });
+    sim.clear_handler();
+    let total = state.lock().unwrap_or_else(|e| e.into_inner()).requested_raw.len();
+    let other = if with_other_call { 1 } else { 0 };
+    let exp = if c == 0 { None } else { Some(p + 1) };
+    match r {
+        Caught::Panic(pn) => ctx.fail("latest_volume:panic", || pn.clone(), wit),
+        Caught::Ret((Ok((va, ca)), Ok((vb, cb)))) => {
+            if va != exp || vb != exp {
+                ctx.fail("concurrent:latest_volume_wrong_directory", || format!("newest {} populated {c}: two concurrent lookups returned {:?} and {:?}", p + 1, va, vb), wit);
+            }
+            if ca + cb + other != total {
+                ctx.fail("concurrent:call_counts_do_not_add_up_to_requests_issued", || format!("newest {} populated {c}: reported {ca} + {cb} calls, the simulator served {} listing requests to the two lookups", p + 1, total - other), wit);
+            }
+            st.outcome("concurrent_ok");
+        }
+        Caught::Ret(other_r) => ctx.fail("concurrent:latest_volume_error", || format!("{:?}", other_r), wit),
+    }
+    st.count("concurrent_lookup_pairs", 1);
 }
 
 pub fn run(ctx: &'static Ctx) -> (&'static str, Value, Vec<&'static str>) {
@@ -286,6 +330,12 @@ pub fn run(ctx: &'static Ctx) -> (&'static str, Value, Vec<&'static str>) {
         for delta in [-20 * 365 * 86_400_000i64, -86_400_000, -900_000, -90_000, -61_000, -1_000, 0, 1_000, 86_400_000, 80 * 365 * 86_400_000] {
             crate::clock::with_thread_now_ms(newest_ms + delta, || check_production(ctx, &sim, &rt, p, c, &mut s3));
             s3.count("production_runs_with_wall_clock_moved", 1);
+        }
+    }
+    // two lookups in flight at once on one runtime
+    for (p, c) in [(0usize, 1usize), (300, 301), (998, 999), (1, 999), (499, 3), (5, 0)] {
+        for with_other in [false, true] {
+            check_production_concurrent(ctx, &sim, &rt, p, c, with_other, &mut s3);
         }
     }
     // body framing of the listing responses (S3 itself answers listings with chunked transfer encoding)
@@ -380,6 +430,13 @@ pub fn replay(ctx: &'static Ctx, case: &Value) {
                     check_production(ctx, &sim, &rt, p, c, &mut st);
                 }
             }
+        }
+        Some("production_concurrent") => {
+            let sim = Sim::start();
+            let rt = runtime();
+            let p = case["newest_directory"].as_u64().unwrap_or(1) as usize - 1;
+            let c = case["populated"].as_u64().unwrap_or(0) as usize;
+            check_production_concurrent(ctx, &sim, &rt, p, c, case["with_other_call"].as_bool().unwrap_or(false), &mut st);
         }
         _ => machinery("C15 replay: unknown op"),
     }
